@@ -78,7 +78,8 @@ def make_schema(case, override=False):
         id_nt = namedtype.DefaultedNamedType('id', keycls(gov_py(gk, case['gov_default'])))
     z = univ.Integer().subtype(implicitTag=ptag.Tag(ptag.tagClassContext, ptag.tagFormatSimple, 9))
     sch = cls(componentType=namedtype.NamedTypes(
-        id_nt, namedtype.NamedType('blob', blob, openType=ot), namedtype.NamedType('z', z)))
+        id_nt, (namedtype.OptionalNamedType if case.get('blob_opt') else namedtype.NamedType)('blob', blob, openType=ot),
+        namedtype.NamedType('z', z)))
     tmap.update(entries)
     return sch, inner
 
@@ -102,8 +103,19 @@ def run_case(case):
     mapped = any(gov_py(gk, k) == g for k, _t in case['map'])
     in_sch = inner[g] if mapped else build.schema(Tin)
     in_objs = [build.value_from(in_sch, Tin, v) for v in vals]
+    # known finding F05 (the canonical encoders drop a present OPTIONAL constructed component with empty contents) applies to an
+    # OPTIONAL open type field holding an empty constructed inner value: reported by C02 / C03, kept out of here
+    f05 = False
+    if case.get('blob_opt'):
+        # (the omission flag travels down: any element with empty contents below the field is dropped, too)
+        for v in vals:
+            top, _e = x690.walk(x690.der(Tin, v))
+            f05 = f05 or any(n.end == n.hdr_end for n in x690.nodes(top))
+        f05 = f05 or (is_of and not vals)
     for cname, kw in CODECS:
         codec = cname.split('-')[0]
+        if f05 and codec in ('CER', 'DER'):
+            continue
         s = sch.clone()
         s.clear()
         s['id'] = g
@@ -167,6 +179,9 @@ def run_case(case):
                 okid = (tuple(rid) == g) if gk == 'OID' else (int(rid) == g)
                 if not okid or int(r['z']) != 7:
                     F(sub, 'other-components', 'id / z changed: id=%s z=%s | e=%s' % (rid.prettyPrint(), r['z'].prettyPrint(), e.value.hex()[:120]))
+                if not r['blob'].isValue:
+                    F(sub, 'field-missing', 'the open type field is absent from the decoded container | e=%s' % e.value.hex()[:120])
+                    continue
                 fields = [r['blob'][i] for i in range(len(r['blob']))] if is_of else [r['blob']]
             except Exception as ex:
                 F(sub, 'result-shape', 'reading the decoded container raised %s | e=%s' % (harness.exc_sig(ex), e.value.hex()[:120]), harness.exc_sig(ex))
@@ -238,6 +253,9 @@ def run_shard(desc, seed, tier, col):
         if Tin['k'] in PERMISSIVE and not Tin.get('tags') and d.pct(60):
             case['override'] = d.pick(['with-flag', 'map-only'])
         case['fill'] = d.pick(['early', 'early', 'late', 'grow'])
+        if d.pct(25) and case['field'] != 'any':
+            case['blob_opt'] = True         # the open type field itself is OPTIONAL (and present); an untagged OPTIONAL ANY in
+                                            # front of another component would be ambiguous
         if d.pct(35):
             case['gov_default'] = gov if d.pct(65) else mp[0][0]
             if case['field'] == 'any':
@@ -249,7 +267,7 @@ def run_shard(desc, seed, tier, col):
         nontriv = ir.depth(Tin) >= 1 or case['field'] != 'any' or case['container'] == 'SET' or bool(case.get('override'))
         feats = ['field:' + case['field'], 'container:' + case['container'], 'gov:' + case['gov_kind'],
                  'mapped' if any(k == case['gov'] for k, _t in case['map']) else 'unmapped',
-                 'inner:constructed' if ir.depth(Tin) >= 1 else 'inner:primitive'] + (['override'] if case.get('override') else []) + ['map-fill:' + case['fill']] + (['governor-DEFAULT' + ('=value' if case.get('gov_default') == case['gov'] else '')] if case.get('gov_default') is not None else [])
+                 'inner:constructed' if ir.depth(Tin) >= 1 else 'inner:primitive'] + (['override'] if case.get('override') else []) + ['map-fill:' + case['fill']] + (['governor-DEFAULT' + ('=value' if case.get('gov_default') == case['gov'] else '')] if case.get('gov_default') is not None else []) + (['field-OPTIONAL'] if case.get('blob_opt') else [])
         col.case(case, nontriv, feats, sample={'map': [[k, ir.show_type(t)[:60]] for k, t in case['map']], 'container': case['container'],
                                                'field': case['field'], 'governing_value': case['gov'], 'inner_type': ir.show_type(Tin)[:80],
                                                'inner_values': absval.short(case['inner_values'], 100)})
